@@ -114,6 +114,8 @@ pub fn spec_from_json(v: &J) -> Option<LineSpec> {
 
 enum Item {
     Row(LineSpec),
+    /// text on which no pattern matches: a row made of DEFAULTs, or nothing
+    Unmatched(Vec<u8>),
     Noise(Vec<u8>),
     /// not valid UTF-8: part of the follow-mode stream only
     Binary(Vec<u8>),
@@ -122,7 +124,12 @@ enum Item {
 fn items_from_json(case: &J, key: &str) -> Option<Vec<Item>> {
     let mut out = Vec::new();
     for it in jarr(case, key) {
-        if let Some(n) = it.get("noise").and_then(|x| x.as_str()) {
+        if let Some(u) = it.get("unmatched").and_then(|x| x.as_str()) {
+            if !sqlgen::UNMATCHED_TEXT.contains(&u) {
+                return None;
+            }
+            out.push(Item::Unmatched(u.as_bytes().to_vec()));
+        } else if let Some(n) = it.get("noise").and_then(|x| x.as_str()) {
             let bytes = dec(n);
             if it.get("binary").and_then(|x| x.as_bool()).unwrap_or(false) {
                 if bytes.contains(&b'\n') || std::str::from_utf8(&bytes).is_ok() {
@@ -199,6 +206,11 @@ impl Property for C06 {
         }
         let n_rows = rng.range(1, 8) as usize;
         let mut items: Vec<J> = (0..n_rows).map(|_| spec_to_json(&sqlgen::gen_line_spec(rng, &cfg, &lc))).collect();
+        if cfg.variant != Variant::Split && (admission_only || rng.chance(1, 5)) {
+            // text on which no pattern matches at all: a row of DEFAULTs if the table declares any, else nothing
+            let pos = rng.below(items.len() + 1);
+            items.insert(pos, json!({"unmatched": *rng.pick(&sqlgen::UNMATCHED_TEXT)}));
+        }
         if admission_only || rng.chance(1, 4) {
             // a line on which no field is present at all (no pattern matches / empty JSON object)
             let pos = rng.below(items.len() + 1);
@@ -319,6 +331,15 @@ impl Property for C06 {
         let mut binary: Vec<(usize, Vec<u8>)> = Vec::new();
         for it in &items {
             match it {
+                Item::Unmatched(bytes) => {
+                    if cfg.variant == Variant::Split {
+                        out.invalid = Some("no unmatched lines for split tables".to_owned());
+                        return out;
+                    }
+                    noisy.push(bytes.clone());
+                    is_noise.push(false);
+                    expected_rows.push(sqlgen::expected_row_unmatched(&cfg));
+                }
                 Item::Binary(bytes) => {
                     if !sqlgen::garbage_is_noise(&cfg) {
                         out.invalid = Some("garbage is a row under this table configuration".to_owned());
